@@ -14,7 +14,8 @@ GENERIC = (" Generic obligations of every check: (RANGE-0): no loop or comprehen
            "(NAME-0) every delay name an analysed class cancels, checks or runs is a name it arms; (ROUND-0) no value is scaled up by a constant after "
            "it was truncated; (LOOP-0) every for loop of an analysed function can reach its second item; "
            "(SWAP-0) no parameter of an analysed / anchored function lands in another parameter's slot of its callee; (DROP-0) a pass-through hands on every "
-           "parameter its callee also takes.")
+           "parameter its callee also takes; (REARM-0) a callback that renews its own one-shot subscription renews it on every returning path after evaluating; "
+           "(MEMO-0) a function memoised by argument value neither answers from changeable state nor hands out a mutable object it built.")
 checks = []
 for p in ALL:
     if p not in CLAIMS:
